@@ -72,6 +72,10 @@ LEGACY_ITEMS = {"IntoIterator": "{A} struct S(Vec<u8>);", "TryInto": "{A} enum S
 SEP = {"adjacent": None, "doc": "/// a doc comment\n", "allow": "#[allow(dead_code)]"}
 
 
+for _f in FAM.values():
+    _f["atoms"].setdefault("eq_value", ' = "x"')
+
+
 def render(fam, atoms, derive, sep="adjacent"):
     F = FAM[fam]
     name = F["name"].format(n=ATTRNAME.get(derive, derive.lower()))
